@@ -59,7 +59,7 @@ def make_any(rng: random.Random):
                 bins = binnings.NumpyBinning(bins, includes_right_edge=rng.random() < 0.7)
             elif k == "1d_fixed":
                 w = rng.choice([0.5, 1.0, 0.1, 2.5])
-                bins = binnings.FixedWidthBinning(bin_width=w, bin_count=rng.randint(1, 8), min=rng.choice([0.0, -2.0, 10.0]))
+                bins = binnings.FixedWidthBinning(bin_width=w, bin_count=rng.randint(1, 8), min=rng.choice([0.0, -2.0, 10.0]), **({"includes_right_edge": True} if rng.random() < 0.3 else {}))
                 pairs = np.asarray(bins.bins).tolist()
                 data = np.asarray(gen.data_for_bins(rng, pairs, n), dtype=float)
             elif k == "1d_adaptive":
@@ -87,11 +87,35 @@ def make_any(rng: random.Random):
         if kind == "collection":
             e = gen.edges(rng, rng.randint(1, 6))
             pairs = gen.pairs_from_edges(e)
-            hs = [physt.h1(np.asarray(gen.data_for_bins(rng, pairs, rng.randint(0, 20))), np.array(e), name=f"m{i}") for i in range(rng.randint(1, 3))]
-            return HistogramCollection(*hs), kind, flags
+            hs = [physt.h1(np.asarray(gen.data_for_bins(rng, pairs, rng.randint(0, 20))), np.array(e), name=f"m{i}") for i in range(rng.randint(0, 3))]
+            ckw = {}
+            if rng.random() < 0.6:
+                ckw["name"] = rng.choice(["runs", "série ✓"])
+            if rng.random() < 0.4:
+                ckw["title"] = "All runs"
+            if not hs:
+                # no member yet (the documented way to start one: binning=..., members created later)
+                ckw["binning"] = physt.h1([e[0]], np.array(e)).binning
+            flags["meta"] = flags["meta"] or bool(ckw)
+            return HistogramCollection(*hs, **ckw), kind, flags
         h = one_1d(kind)
         if h.keep_missed and rng.random() < 0.3 and not h.is_adaptive() and np.dtype(h.dtype).kind == "f":
             h.inner_missed = rng.choice([1.0, 2.5])
+            flags["missed"] = True
+        if h.shape[0] >= 2 and not h.is_adaptive() and rng.random() < 0.1:
+            # a selection that drops the last bin: its bins are right-open, whatever the class of binning they came from
+            h = h[0 : h.shape[0] - 1]
+        if h.keep_missed and not h.is_adaptive() and rng.random() < 0.2:
+            # tracking of the missed values switched off later (by hand, or by adding a histogram that never tracked them): what had been
+            # recorded until then is still reported, and is part of the document
+            if rng.random() < 0.5:
+                h.keep_missed = False
+            else:
+                with warnings.catch_warnings():
+                    warnings.simplefilter("ignore")
+                    other = h.copy()
+                    other.keep_missed = False
+                    h = h + other
             flags["missed"] = True
     elif kind in ("2d", "nd", "2d_adaptive"):
         d = 2 if kind.startswith("2d") else rng.choice([3, 4])
